@@ -17,7 +17,7 @@ EXPLANATION = (
     "structural part decided here.")
 # every anchor of these rules lives in the h3 crate: thorough tier repeats them on the feature-less build
 EXTRA_CONFIGS = ["h3-plain"]
-RULES = "C07-a stream-scoped faults are not connection-fatal (A3); C07-b stream errors never become clean EOF (A3); C07-c nothing but the shared state is shared (A12); shared: frame reader memo under C07-b; shared through a proxy: C12-a under C07-a"
+RULES = "C07-a stream-scoped faults are not connection-fatal (A3); C07-b stream errors never become clean EOF (A3); C07-c nothing but the shared state is shared (A12); shared: frame reader memo under C07-b; shared through a proxy: C12-a under C07-a, C17-b (poll_ready) under C07-b"
 
 CEC = "h3::error::connection_error_creators::"
 FATAL = ("handle_connection_error_on_stream", "handle_connection_error", "set_conn_error_and_wake", "set_conn_error")
@@ -194,3 +194,5 @@ def run(ctx):
     if not getattr(ctx, "nested", False):
         from rules import C12 as _c12
         _c12.run(shared.Proxy(ctx, ("C12-a",), "C07-a"))
+        # a write refused by the peer (STOP_SENDING / reset) must stay that stream's problem: the adapter drops the buffer of a failed write (C17-b)
+        _c17.run(shared.Proxy(ctx, ("C17-b",), "C07-b", only=("poll_ready",)))
